@@ -32,7 +32,7 @@ class Foo(HasTraits):
 
 
 KINDS = ["const", "anylist", "anydict", "list", "dict", "set", "inst", "factory", "dyn", "tuplelist", "tuple3",
-         "unionlist", "dictlist", "listlist", "anysublist", "anyodict", "dynenumdyn", "uniondef"]
+         "unionlist", "dictlist", "listlist", "anysublist", "anyodict", "dynenumdyn", "uniondef", "tupledef"]
 
 
 class Tags(list):
@@ -74,6 +74,9 @@ def decl(kind):
         return Tuple(List(Int), Int), ([], 0)
     if kind == "tuple3":
         return Tuple(Str, Dict(Str, Int), Int), ("", {}, 0)
+    if kind == "tupledef":
+        # an EXPLICIT default tuple that holds a list
+        return Tuple(([1], 0), List(Int), Int), ([1], 0)
     if kind == "unionlist":
         return Union(List(Int), Int), []
     if kind == "dictlist":
@@ -84,7 +87,7 @@ def decl(kind):
 
 
 ASSIGN = {"uniondef": [3], "dynenumdyn": 3, "anysublist": [3], "anyodict": {"b": 2}, "const": 1, "anylist": [3], "anydict": {"b": 2}, "list": [3], "dict": {"b": 2}, "set": {3}, "inst": None,
-          "factory": [3], "dyn": [3], "tuplelist": ([3], 1), "tuple3": ("s", {"q": 1}, 2), "unionlist": [3],
+          "factory": [3], "dyn": [3], "tuplelist": ([3], 1), "tupledef": ([3], 1), "tuple3": ("s", {"q": 1}, 2), "unionlist": [3],
           "dictlist": {"q": [3]}, "listlist": [[3]]}
 
 
@@ -234,6 +237,8 @@ def run(case, ctx):
         """Known family F50b: a plain list in a subclass body over an inherited Any list default."""
         if attr in over_anylist:
             return "/subclass-list-over-any"
+        if attr in names and kinds[names.index(attr)] == "tupledef":
+            return "/explicit-tuple-default"          # known family F61
         return ""
 
     def defaults_of(cls):
@@ -395,7 +400,7 @@ def run(case, ctx):
                 if nm not in m["vals"]:
                     m["vals"][nm] = plain(v)
                 tgt = v
-                if kind == "tuplelist":
+                if kind in ("tuplelist", "tupledef"):
                     tgt = v[0]
                 if kind == "tuple3":
                     tgt = v[1]
